@@ -74,4 +74,25 @@ CHECKS = {
         "level_text": "Every single fault of a structural catalogue is enumerated on each sampled data directory and the real strict recovery is run on the damaged copy; the engine's own readers are then queried to name the mechanism.",
         "level_note": "trusted base: catalogue completeness for the on-disk formats (parsed by the harness), the reference map; histories sampled, faults enumerated per directory",
     },
+    "C03": {
+        "level": "fault_enumeration",
+        "design_ref": "DESIGN.md section 5/C03",
+        "engine": "E1 simlibc",
+        "technique": "deterministic simulation with fault injection at the libc seam (errno, short writes, low disk) inside operations, plus invalid-input classes on every engine write path; live census and real recover() on the kill-model image judged against a reference map after each step",
+        "rule": "two configurations run separately (even runs: invalid-input classes {wrong dimension, empty, all-zero, denormal, NaN, +-Inf, overflowing norm, huge lane, index full} "
+                "on HnswBackend::insert / TieredEngine::insert / bulk_load_cold_tier, no I/O fault; odd runs: storage faults = 1-3 rules per faulted step from "
+                "{ENOSPC,EIO,EDQUOT,EINTR,EACCES} x n-th {write,fsync,fdatasync,ftruncate,rename,open,unlink} x file role {wal, snapshot tmp, MANIFEST tmp, dir} + short writes + statvfs low space, "
+                "armed only inside the operation, so second faults land in the engine's rollback/retries). After every step live census == model; after every failed/faulted "
+                "step (and every 4th + last) the real strict recovery on the kill-model image of the journal == model. evaluations = steps judged live + recoveries judged. "
+                "distinct_nontrivial = runs with >=1 operation that reported failure whose journal-shape hash is new.",
+        "assumptions": [
+            "fault position is sampled (n-th matching call, n in 1..3) rather than enumerated over every call of the operation",
+            "reads are never faulted; a storage fault during start-up may fail that start-up, the clean retry must succeed",
+            "server-level write paths (Insert/BulkInsert/BulkLoadHnsw RPCs) are judged by C15",
+        ],
+        "expected_probes": ["retry_backoff_slept", "circuit_breaker_rejected_a_write", "fault_inside_rollback_truncate", "disk_space_guard_fault"],
+        "tiers": {"quick": {"runs_per_worker": 100000, "budget_s": 35}, "thorough": {"runs_per_worker": 2000000, "budget_s": 600}},
+        "level_text": "Storage faults are injected at the libc seam inside sampled operations (including the engine's own rollback and retries) and invalid-input classes are enumerated per write path; every failed call is judged live and through a real recovery.",
+        "level_note": "trusted base: libc seam + fault plan, kill-model image of the journal, reference map; histories and fault positions sampled",
+    },
 }
